@@ -356,7 +356,7 @@ def run(ctx):
             if len(samples) < 12 and kind in ("gen", "suite") and len(src) < 400:
                 samples.append({"origin": origin, "source": src, "value": ev})
         # third oracle: the documented / expected printed value
-        if exp is not None and cat not in ("parse-error", "rejected-by-compiler", "unsupported", "no-executable-code"):
+        if exp is not None and cat in ("agree", "agree-error", "DISAGREE"):
             pr, pe = printed(real), printed(ev)
             if pr is None and pe is None:
                 third["not-plain"] += 1
